@@ -369,10 +369,12 @@ def intervals_models(ctx):
 
     for kw in ({"min_absolute_overlap": 0.5, "min_relative_overlap": 0.5}, {"min_absolute_overlap": 0.0, "min_relative_overlap": 0.0},
                {"min_relative_overlap": -0.5}, {"min_relative_overlap": 1.5}, {"min_relative_overlap": -1e-9}, {"min_relative_overlap": 1.0000001}):
-        got = call((0.0, 2.0), (1.0, 3.0), **kw)
-        n += 1
-        if got != ("raises", "ValueError"):
-            return n, f"intervals_overlap((0, 2), (1, 3), {kw}) gives {got[1]!r} instead of raising ValueError", {"thresholds": kw}
+        # (on intervals of positive length and on degenerate ones: the rejection is of the threshold, whatever the intervals)
+        for i1, i2 in (((0.0, 2.0), (1.0, 3.0)), ((1.0, 1.0), (0.0, 2.0)), ((1.0, 1.0), (1.0, 1.0)), ((0.0, 2.0), (2.0, 2.0)), ((0.0, 1.0), (2.0, 3.0))):
+            got = call(i1, i2, **kw)
+            n += 1
+            if got != ("raises", "ValueError"):
+                return n, f"intervals_overlap({i1}, {i2}, {kw}) gives {got[1]!r} instead of raising ValueError", {"interval1": i1, "interval2": i2, "thresholds": kw}
     for i1 in ivs:
         for i2 in ivs:
             inter = min(i1[1], i2[1]) - max(i1[0], i2[0])
